@@ -256,6 +256,9 @@ def oracle_c04(E, ctx):
             E.fail("every-reference-label-inside-a-segment's-span-accounted-exactly-once")
         if not okq:
             E.fail("every-query-label-inside-a-segment's-span-accounted-exactly-once")
+    allpairs = [(position_labels(p)[1], position_labels(p)[2]) for seg in row.segments for p in seg.positions if position_labels(p)[0] == "P"]
+    if len({a for a, _ in allpairs}) != len(allpairs) or len({b for _, b in allpairs}) != len(allpairs):
+        E.fail("no-label-is-counted-in-two-pairs-of-one-record")
     E.check("offsets-within-maxPairDistance-and-relative-to-the-segment's-seed", And(numeric))
     E.check("confidence-equals-recomputed-score", row.confidence == total)
 
